@@ -4,7 +4,8 @@
 (*                                                                         *)
 (* A HEAP of immutable objects.  Every derivation operation (bind, unbind, *)
 (* select, with_entrypoint, add_nodes, as_node on graphs; with_name,       *)
-(* with_inputs, with_outputs, map_over on nodes) may be applied to ANY     *)
+(* with_inputs, with_outputs, map_over on nodes; wrap = Graph([gnode]) on  *)
+(* graph nodes: NESTING) may be applied to ANY                             *)
 (* object created so far; it appends ONE new object and never touches an   *)
 (* existing one.  Observations (observe = read the properties, which in    *)
 (* the code populates caches; run = execute the object) change nothing.    *)
@@ -13,7 +14,11 @@
 (*   graph : node list, bound (name -> tag of the binding op), selection,  *)
 (*           entry points and the derived input specification              *)
 (*           (required / optional / cycle entry points / all), outputs;    *)
-(*   node  : name, inputs, outputs, map_over (graph nodes), wrapped graph. *)
+(*   node  : name, inputs, outputs, map_over (graph nodes), wrapped graph, *)
+(*           which inputs are optional / bound INSIDE the wrapped graph;   *)
+(*   outer : the graph around ONE graph node: own bindings, the bindings   *)
+(*           INHERITED from the wrapped graph (under the names the graph   *)
+(*           node exposes), selection, input specification, outputs.       *)
 (* The derived input specification is computed declaratively from the      *)
 (* documented rules (active scope = forward from the entry points,         *)
 (* backward from the selection with pessimistic gate expansion; "edge      *)
@@ -38,7 +43,7 @@
 EXTENDS HGBase, TLC, Json
 
 CONSTANTS D,          \* bound on the length of a history
-          Scenario,   \* which base objects are on the initial heap: "g0" | "g1" | "nodes" | "all"
+          Scenario,   \* which base objects are on the initial heap: "g0" | "g1" | "nodes" | "all" | "nest"
           Ops,        \* enabled operation names
           Wide,       \* BOOLEAN: the larger argument alphabets
           EmitHist,   \* BOOLEAN: print every history (tag HIST)
@@ -156,7 +161,12 @@ PlainValid == [ns \in NodeLists |-> Names(InSpec(ns, {}, Unset, Unset).all) \cup
 (***************************************************************************)
 Blank == [kind |-> "", name |-> "", nodes |-> <<>>, bound |-> EmptyMap, sel |-> Unset, entry |-> Unset,
           req |-> <<>>, opt |-> <<>>, eps |-> EmptyMap, ins |-> <<>>, outs |-> <<>>,
-          mapo |-> <<>>, dflt |-> <<>>, wraps |-> 0, parent |-> 0, born |-> 0]
+          mapo |-> <<>>, dflt |-> <<>>, ibound |-> EmptyMap, nins |-> <<>>,
+          wraps |-> 0, parent |-> 0, born |-> 0]
+
+\* the bindings a graph shows: its own ones take precedence over the inherited ones
+EffBound(g) == [x \in (DOMAIN g.ibound) \cup (DOMAIN g.bound) |->
+                  IF x \in DOMAIN g.bound THEN g.bound[x] ELSE g.ibound[x]]
 
 MkGraph(nm, ns, bound, sel, entry, parent, born) ==
   LET sp == InSpec(ns, DOMAIN bound, sel, entry)
@@ -164,20 +174,41 @@ MkGraph(nm, ns, bound, sel, entry, parent, born) ==
                    !.req = sp.req, !.opt = sp.opt, !.eps = sp.eps, !.ins = sp.all, !.outs = FlatOuts(ns, 1),
                    !.parent = parent, !.born = born]
 
-\* a graph node: inputs = all inputs of the graph, outputs = the selection if set
+\* a graph node: inputs = all inputs of the graph, outputs = the selection if set;
+\* dflt = the inputs with a fallback inside (bound or defaulted there: the optional ones),
+\* ibound = the bindings of the wrapped graph that the node exposes
 MkGNode(g, gi, born) ==
   [Blank EXCEPT !.kind = "gnode", !.name = g.name, !.ins = g.ins,
                 !.outs = IF g.sel.set THEN g.sel.v ELSE g.outs,
+                !.dflt = g.opt, !.ibound = RestrictTo(EffBound(g), Names(g.ins)),
                 !.wraps = gi, !.parent = gi, !.born = born]
+
+\* the OUTER graph Graph([gn], name = nm) around one graph node (the node's inputs never meet its own
+\* outputs: guard of wrap).  own = the outer graph's own bindings; the bindings of the wrapped inner graph
+\* are INHERITED under the exposed names.  A parameter is optional iff it is bound (own or inherited) or
+\* has a fallback inside; nins keeps the node's input order (a derivation of the outer graph is a
+\* function of the outer graph alone).
+MkOuter(nm, gname, nins, dflt, ibound, outs, gi, own, sel, parent, born) ==
+  LET fb  == (DOMAIN own) \cup (DOMAIN ibound) \cup Names(dflt)
+      req == SeqFilter(nins, Names(nins) \ fb, 1)
+      opt == SeqFilter(nins, Names(nins) \cap fb, 1)
+  IN [Blank EXCEPT !.kind = "outer", !.name = nm, !.nodes = <<gname>>, !.bound = own, !.ibound = ibound,
+                   !.sel = sel, !.req = req, !.opt = opt, !.ins = req \o opt, !.outs = outs,
+                   !.dflt = dflt, !.nins = nins, !.wraps = gi, !.parent = parent, !.born = born]
+Rewrap(o, own, sel, parent, born) ==
+  MkOuter(o.name, o.nodes[1], o.nins, o.dflt, o.ibound, o.outs, o.wraps, own, sel, parent, born)
 
 G0 == MkGraph("G0", <<"A", "B", "C">>, EmptyMap, Unset, Unset, 0, 0)
 G1 == MkGraph("G1", <<"P", "Q", "R", "T">>, EmptyMap, Unset, Unset, 0, 0)
 N0 == [Blank EXCEPT !.kind = "node", !.name = "F", !.ins = <<"p", "q">>, !.outs = <<"r">>, !.dflt = <<"q">>]
+\* G0 with a binding made before the history starts (tag 0): what a graph node around it inherits
+GB == MkGraph("G0", <<"A", "B", "C">>, [p \in {"x"} |-> 0], Unset, Unset, 0, 0)
 
 Base == CASE Scenario = "g0"    -> <<G0>>
           [] Scenario = "g1"    -> <<G1>>
           [] Scenario = "nodes" -> <<G0, N0, MkGNode(G0, 1, 0)>>
           [] Scenario = "all"   -> <<G0, G1, N0, MkGNode(G0, 1, 0)>>
+          [] Scenario = "nest"  -> <<GB, MkGNode(GB, 1, 0)>>
 NBase == Len(Base)
 
 (***************************************************************************)
@@ -198,6 +229,7 @@ InRenames   == IF Wide THEN {<<>>, <<<<"x", "u">>>>, <<<<"x", "y">>, <<"y", "x">
 OutRenames  == IF Wide THEN {<<>>, <<<<"c", "o">>>>, <<<<"a", "c">>, <<"c", "a">>>>, <<<<"o", "c">>>>, <<<<"r", "o">>>>, <<<<"t", "o">>>>}
                        ELSE {<<<<"c", "o">>>>, <<<<"r", "o">>>>, <<<<"t", "o">>>>}
 MapParams   == IF Wide THEN {"x", "y", "u", "n", "s"} ELSE {"x", "y", "s"}
+OuterNames  == {"O"}
 
 RECURSIVE FlatPairs(_, _)
 FlatPairs(m, k) == IF k > Len(m) THEN <<>> ELSE <<m[k][1], m[k][2]>> \o FlatPairs(m, k + 1)
@@ -205,6 +237,9 @@ RECURSIVE PairsOf(_, _)          \* inverse of FlatPairs
 PairsOf(a, k) == IF k > Len(a) THEN <<>> ELSE <<<<a[k], a[k + 1]>>>> \o PairsOf(a, k + 2)
 
 RenSeq(seq, m)  == [k \in 1..Len(seq) |-> PairGetD(m, seq[k], seq[k])]
+\* rename the keys of a map (the rename is injective on them: guard of with_inputs)
+RenKeys(f, m)   == [y \in {PairGetD(m, x, x) : x \in DOMAIN f} |->
+                      f[CHOOSE x \in DOMAIN f : PairGetD(m, x, x) = y]]
 NoDup(seq)      == Cardinality(Names(seq)) = Len(seq)
 
 Op(name, i, arg) == [op |-> name, tgt |-> i, arg |-> arg]
@@ -221,11 +256,17 @@ Cands(o, i) ==
   \cup {Op("with_entrypoint", i, <<n>>) : n \in EntryNames}
   \cup {Op("add_nodes", i, <<n>>) : n \in ExtraNodes}
   \cup {Op("as_node", i, <<>>), Op("observe", i, <<>>), Op("run", i, <<>>)}
+  ELSE IF o.kind = "outer" THEN
+       {Op("bind", i, <<nm>>) : nm \in BindNames}
+  \cup {Op("unbind", i, <<nm>>) : nm \in (DOMAIN o.bound) \cup (DOMAIN o.ibound)}   \* own or only inherited
+  \cup {Op("select", i, s) : s \in SelChoices}
+  \cup {Op("as_node", i, <<>>), Op("observe", i, <<>>), Op("run", i, <<>>)}
   ELSE
        {Op("with_name", i, <<nm>>) : nm \in NewNames}
   \cup {Op("with_inputs", i, FlatPairs(m, 1)) : m \in InRenames}
   \cup {Op("with_outputs", i, FlatPairs(m, 1)) : m \in OutRenames}
   \cup {Op("map_over", i, <<p>>) : p \in MapParams}
+  \cup {Op("wrap", i, <<nm>>) : nm \in OuterNames}
   \cup {Op("observe", i, <<>>), Op("run", i, <<>>)}
 
 IsObservation(e) == e.op \in {"observe", "run"}
@@ -236,7 +277,8 @@ IsObservation(e) == e.op \in {"observe", "run"}
 ValidNames(o) == Names(o.ins) \cup Names(o.outs)
 Pre(o, e) ==
   CASE e.op = "bind"    -> e.arg[1] \in ValidNames(o)
-    [] e.op = "unbind"  -> e.arg[1] \in DOMAIN o.bound
+    \* unbind of a name that is only INHERITED from a nested graph is legal: a new, equal graph
+    [] e.op = "unbind"  -> e.arg[1] \in (DOMAIN o.bound) \cup (DOMAIN o.ibound)
     [] e.op = "select"  -> Names(e.arg) \subseteq Names(o.outs) /\ o.sel # IsSet(e.arg)
     [] e.op = "with_entrypoint" -> /\ e.arg[1] \in Names(o.nodes)
                                    /\ ~Cat[e.arg[1]].gate
@@ -252,6 +294,8 @@ Pre(o, e) ==
     [] e.op = "with_outputs" -> LET m == PairsOf(e.arg, 1)
                                 IN PairKeys(m) \subseteq Names(o.outs) /\ NoDup(RenSeq(o.outs, m))
     [] e.op = "map_over"  -> o.kind = "gnode" /\ e.arg[1] \in Names(o.ins)
+    \* model restriction: no input of the node is one of its own outputs (would be a cycle of the outer graph)
+    [] e.op = "wrap"      -> o.kind = "gnode" /\ Names(o.ins) \cap Names(o.outs) = {}
     [] e.op = "observe"   -> TRUE
     [] e.op = "run"       -> TRUE
 
@@ -260,7 +304,11 @@ Pre(o, e) ==
 (* history) from receiver o = heap[e.tgt].  A PURE function of (o, e, k).  *)
 (***************************************************************************)
 NewObj(o, e, k) ==
-  CASE e.op = "bind"    -> MkGraph(o.name, o.nodes, Put(o.bound, e.arg[1], k), o.sel, o.entry, e.tgt, k)
+  CASE e.op = "bind" /\ o.kind = "outer"   -> Rewrap(o, Put(o.bound, e.arg[1], k), o.sel, e.tgt, k)
+    \* only the OWN binding goes; an inherited one stays (and shows again)
+    [] e.op = "unbind" /\ o.kind = "outer" -> Rewrap(o, Drop(o.bound, e.arg[1]), o.sel, e.tgt, k)
+    [] e.op = "select" /\ o.kind = "outer" -> Rewrap(o, o.bound, IsSet(e.arg), e.tgt, k)
+    [] e.op = "bind"    -> MkGraph(o.name, o.nodes, Put(o.bound, e.arg[1], k), o.sel, o.entry, e.tgt, k)
     [] e.op = "unbind"  -> MkGraph(o.name, o.nodes, Drop(o.bound, e.arg[1]), o.sel, o.entry, e.tgt, k)
     [] e.op = "select"  -> MkGraph(o.name, o.nodes, o.bound, IsSet(e.arg), o.entry, e.tgt, k)
     [] e.op = "with_entrypoint" ->
@@ -272,10 +320,11 @@ NewObj(o, e, k) ==
     [] e.op = "with_inputs" ->
          LET m == PairsOf(e.arg, 1)
          IN [o EXCEPT !.ins = RenSeq(o.ins, m), !.mapo = RenSeq(o.mapo, m), !.dflt = RenSeq(o.dflt, m),
-                      !.parent = e.tgt, !.born = k]
+                      !.ibound = RenKeys(o.ibound, m), !.parent = e.tgt, !.born = k]
     [] e.op = "with_outputs" ->
          [o EXCEPT !.outs = RenSeq(o.outs, PairsOf(e.arg, 1)), !.parent = e.tgt, !.born = k]
     [] e.op = "map_over" -> [o EXCEPT !.mapo = e.arg, !.parent = e.tgt, !.born = k]
+    [] e.op = "wrap" -> MkOuter(e.arg[1], o.name, o.ins, o.dflt, o.ibound, o.outs, e.tgt, EmptyMap, Unset, e.tgt, k)
 
 (***************************************************************************)
 (* The transition system.                                                  *)
@@ -288,7 +337,7 @@ Do(i, e) ==
   /\ IF IsObservation(e)
        THEN /\ Len(ops) + 1 < D                        \* an observation at the very end adds nothing
             /\ \A k \in 1..Len(ops) : ops[k] # e       \* observing twice adds nothing
-            /\ e.op = "run" => heap[i].kind = "graph"
+            /\ e.op = "run" => heap[i].kind \in {"graph", "outer"}
             /\ heap' = heap
        ELSE heap' = Append(heap, NewObj(heap[i], e, Len(ops) + 1))
   /\ ops' = Append(ops, e)
@@ -317,15 +366,20 @@ NDeriv == Cardinality({k \in 1..Len(ops) : ~IsObservation(ops[k])})
 OneNew == Len(heap) = NBase + NDeriv
 
 WellFormed == \A i \in 1..Len(heap) : LET o == heap[i] IN
-  /\ o.kind \in {"graph", "node", "gnode"}
+  /\ o.kind \in {"graph", "node", "gnode", "outer"}
   /\ NoDup(o.ins) /\ NoDup(o.outs)
-  /\ o.kind = "graph" => /\ Names(o.req) \cap Names(o.opt) = {}
+  /\ o.kind \in {"graph", "outer"} =>
+                         /\ Names(o.req) \cap Names(o.opt) = {}
                          /\ Names(o.req) \cup Names(o.opt) \subseteq Names(o.ins)
-                         /\ Names(o.req) \cap DOMAIN o.bound = {}
+                         /\ Names(o.req) \cap DOMAIN EffBound(o) = {}
                          /\ o.sel.set => Names(o.sel.v) \subseteq Names(o.outs)
                          /\ o.entry.set => Names(o.entry.v) \subseteq Names(o.nodes)
   /\ o.kind # "graph" => Names(o.mapo) \subseteq Names(o.ins)
-  /\ o.kind = "gnode" => heap[o.wraps].kind = "graph"
+  /\ o.kind = "gnode" => /\ heap[o.wraps].kind \in {"graph", "outer"}
+                         /\ DOMAIN o.ibound \subseteq Names(o.dflt) /\ Names(o.dflt) \subseteq Names(o.ins)
+  /\ o.kind = "outer" => /\ heap[o.wraps].kind = "gnode"
+                         /\ Names(o.ins) = Names(o.nins) /\ DOMAIN o.ibound \subseteq Names(o.opt)
+  /\ o.kind \in {"graph", "node"} => o.ibound = EmptyMap
 
 \* export: the base heap once, then per state the history and the object created by its last operation
 Emit ==
